@@ -172,6 +172,16 @@ def run(pid, tier, seed, labels, terminal_labels, e1_cfgs, e1_invariants, e1_pro
             handle(V + E, cfg, recs, 'scenario')
             v.cov['traces_validated_against_impl'] += len(traces)
             v.cov['evaluations'] += sum(len(t['steps']) for t in traces)
+    # verdicts produced by scenario families with their own monitor (sequencing runs of C16)
+    import importlib
+    mod = sys.modules.get(pid.lower())
+    for sv, ntr, nst in getattr(mod, 'SEQ_RESULTS', []) if mod else []:
+        v.violations += sv.violations
+        for kf, val in sv.known_hits.items():
+            v.known_hits[kf] = val
+        v.cov['traces_validated_against_impl'] += ntr
+        v.cov['evaluations'] += nst
+        v.cov['sequencing_traces'] = ntr
     v.cov['distinct_nontrivial'] = v.cov['traces_validated_against_impl']
     v.cov['rule'] = ('E1: TLC exhausts Cluster.tla for each listed configuration within its bounds (rounds, fault '
                      'budgets, slow FIFO set); E2/E3a: each replayed model behaviour / seeded random schedule / '
